@@ -21,6 +21,12 @@ def _val(spec):
         return list(spec[1])
     if k == "dict":
         return {"a": list(spec[1])}
+    if k == "objarr":
+        a = np.empty(len(spec[1]) + 1, dtype=object)
+        for j, e in enumerate(spec[1]):
+            a[j] = [e, e + 1] if j % 2 == 0 else {"a": [e]}
+        a[len(spec[1])] = np.array([1.0, 2.0])
+        return a
     if k == "none":
         return None
     if k == "str":
@@ -32,7 +38,11 @@ def _eq(a, b):
     if a is None or b is None:
         return a is None and b is None
     if isinstance(a, np.ndarray) or isinstance(b, np.ndarray):
-        return isinstance(a, np.ndarray) and isinstance(b, np.ndarray) and a.shape == b.shape and np.array_equal(a, b)
+        if not (isinstance(a, np.ndarray) and isinstance(b, np.ndarray) and a.shape == b.shape and a.dtype == b.dtype):
+            return False
+        if a.dtype == object:
+            return all(_eq(x, y) for x, y in zip(a.ravel().tolist(), b.ravel().tolist()))
+        return np.array_equal(a, b)
     if isinstance(a, dict):
         return isinstance(b, dict) and a.keys() == b.keys() and all(_eq(a[k], b[k]) for k in a)
     if isinstance(a, (list, tuple)):
@@ -42,6 +52,11 @@ def _eq(a, b):
 
 def _mutate(v):
     """Mutate a value in place (what a caller may do after handing it over)."""
+    if isinstance(v, np.ndarray) and v.dtype == object and v.size:
+        # mutate the *elements* in place (a shallow copy of the array would share them)
+        for e in v.ravel().tolist():
+            _mutate(e)
+        return True
     if isinstance(v, np.ndarray) and v.size:
         v += 1000.0
         return True
@@ -196,7 +211,9 @@ def execute_result(h):
 
 
 def gen_value(rng):
-    k = rng.choice(["int", "float", "arr", "arr", "list", "dict", "none", "str"])
+    k = rng.choice(["int", "float", "arr", "arr", "list", "dict", "none", "str", "objarr"])
+    if k == "objarr":
+        return ["objarr", [rng.randrange(0, 9) for _ in range(rng.randrange(1, 4))]]
     if k == "int":
         return ["int", rng.randrange(-5, 50)]
     if k == "float":
